@@ -12,7 +12,7 @@ flow-integration solver's start gate:
 """
 from . import kkt, loop
 
-OWNED = ["C01.", "C12.result_is_last_accepted", "C12.final_is_last_accepted"]
+OWNED = ["C01.", "C12.result_is_last_accepted", "C12.final_is_last_accepted", "C05.fp64."]
 REQUIRED = [
     "C01.gate.cons_violation", "C01.gate.stationarity", "C01.gate.bounds_exact", "C12.result_is_last_accepted.x", "C12.final_is_last_accepted",
     "C01.transfer.variable_bounds_hold_exactly", "C01.transfer.constraints_feasible_to_tolerance", "C01.transfer.stationarity_to_tolerance",
@@ -62,4 +62,8 @@ def tasks(tier):
         evs += [(["boxed", "boxed", "lower"], ["eq0"]), (["free", "upper"], ["eq0", "eq0"])]
     for v, c in evs:
         t.append(dict(module="kkt", fn="h_events", shape=dict(vars=v, cons=c), opts=o))
+    # "variable bounds hold exactly" is a statement about the floating-point point that is returned: the
+    # clip kernel (StepResult._compute_xn / .iterate) bit-exactly in IEEE binary64 (z3 QF_FP)
+    for k in ([["boxed"], ["lower", "upper"]] if q else [["boxed"], ["lower", "upper"], ["boxed", "boxed"]]):
+        t.append(dict(module="fpk", fn="h_clip", shape=dict(n=len(k), vars=k), opts=dict(nra=True, timeout_ms=300000)))
     return t
